@@ -16,9 +16,15 @@ PartOK(part, a, b) ==
   /\ KnnValid(part.D, ToSets(part.nb), ncfg.k)
 (* a degenerate permutation distribution (all distances equal: lo = hi up to rounding) has no normal fit; the
    implementation then holds NaN, which compares like the point mass itself because no distance exceeds it *)
-ThetaOK(th) == \/ th.theta = "NA"
-               \/ NCmp(th.lo, th.theta) \in {-1, 0, 2} /\ NCmp(th.theta, th.hi) \in {-1, 0, 2}
-               \/ NIsNaN(th.theta) /\ Close(th.lo, th.hi)
+(* th.fit: the (1 - alpha) quantile of the normal distribution fitted (mean, population deviation) to the very re-assignment distances
+   the implementation computed for this update, when they could be observed ("NA" otherwise): the threshold must then BE that number *)
+FitOK(th) == IF th.fit = "NA" \/ th.theta = "NA" THEN TRUE
+             ELSE IF NIsNaN(th.fit) THEN NIsNaN(th.theta) ELSE Close(th.theta, th.fit)
+ThetaOK(th) == /\ FitOK(th)
+               /\ \/ th.theta = "NA"
+                  \/ NCmp(th.lo, th.theta) \in {-1, 0, 2} /\ NCmp(th.theta, th.hi) \in {-1, 0, 2}
+                  \/ NIsNaN(th.theta) /\ Close(th.lo, th.hi)
+                  \/ th.fit # "NA" /\ NIsNaN(th.fit) /\ NIsNaN(th.theta)      \* the observed distances were all equal: no normal fit (few re-assignments)
 AboveSet(d, th) ==
   IF th.theta # "NA" THEN GtSet(d, th.theta)
   ELSE IF DefGt(d, th.hi) THEN {TRUE} ELSE IF DefLt(d, th.lo) THEN {FALSE} ELSE {TRUE, FALSE}
